@@ -171,6 +171,20 @@ func TestC06(t *testing.T) {
 		if err != nil || hx.Diff(obs, after) != "" {
 			t.Fatalf("%s changed its receiver: %v %s\n%s", mode, err, hx.Diff(obs, after), desc())
 		}
+		// "changes nothing else": further columns added to the result and to a sibling forked from the same
+		// result must not show up in each other (new columns are appended to a column slice that may have
+		// spare capacity)
+		if mode == "apply" && rapid.IntRange(0, 2).Draw(t, "fork") == 0 {
+			c1 := res.Apply(qframe.Instruction{Fn: 1, DstCol: "fork1"})
+			c2 := res.Apply(qframe.Instruction{Fn: 2.5, DstCol: "fork2"})
+			o1, e1 := hx.Observe(c1)
+			o2, e2 := hx.Observe(c2)
+			w1 := got.With(hx.Col{Name: "fork1", Kind: hx.KInt, I: constInts(1, got.N())})
+			w2 := got.With(hx.Col{Name: "fork2", Kind: hx.KFloat, F: constFloats(2.5, got.N())})
+			if e1 != nil || e2 != nil || hx.Diff(w1, o1) != "" || hx.Diff(w2, o2) != "" {
+				t.Fatalf("two frames forked from the result by adding a column each interfere: %v %v %s %s\n%s", e1, e2, hx.Diff(w1, o1), hx.Diff(w2, o2), desc())
+			}
+		}
 
 		overlap := false
 		dsts := map[string]bool{}
@@ -215,4 +229,20 @@ func normaliseZeroStrings(got, want hx.Table, match []int) hx.Table {
 		out.Cols[ci].S = s
 	}
 	return out
+}
+
+func constInts(v, n int) []int {
+	r := make([]int, n)
+	for i := range r {
+		r[i] = v
+	}
+	return r
+}
+
+func constFloats(v float64, n int) []float64 {
+	r := make([]float64, n)
+	for i := range r {
+		r[i] = v
+	}
+	return r
 }
